@@ -3,6 +3,7 @@
 // readReflect, WriteFrom/ReadInto) against coq/Codec/Reflect.v.
 //
 //	-mode rt     (component "reflect", C12): primitives, round trips of supported values, WriteFrom/ReadInto
+//	-mode buf    (component "buf", C12/C13): the Writer / Reader state machines, pools, nesting, the ActorRef factory (buf.go)
 //	-mode total  (component "reflect_total", C13): every kind of value through Write; Read called wrongly;
 //	             truncated / corrupted / random / length-targeted input through Read — executed in a CHILD
 //	             process (re-exec with -child) under RLIMIT_AS and a per-case timeout: a crash, a timeout
@@ -1181,7 +1182,7 @@ func runChildren(f lib.Flags, o *lib.Out, tier int, perCase time.Duration) {
 }
 
 func main() {
-	mode := flag.String("mode", "rt", "rt|total")
+	mode := flag.String("mode", "rt", "rt|total|buf|buf13")
 	child := flag.Bool("child", false, "internal: run the hostile decode stream")
 	fromB := flag.Int("fromblock", 0, "internal")
 	fromI := flag.Int("fromidx", 0, "internal")
@@ -1196,11 +1197,18 @@ func main() {
 	}
 	o := lib.NewOut(f.Out)
 	h := &H{s: outSink{o}, g: &Gen{r: lib.NewRand(f.Seed)}}
+	hb := &H{s: outSink{o}, g: &Gen{r: lib.NewRand(f.Seed + 0x5bf00)}} // the state-machine scenarios (buf.go) have their own stream
 	o.Info["mode"] = *mode
 	switch *mode {
 	case "rt":
 		h.modeRT(tier)
+		hb.modeBuf(tier, false)
+	case "buf":
+		hb.modeBuf(tier, false)
+	case "buf13":
+		hb.modeBuf(tier, true)
 	case "total":
+		hb.modeBuf(tier, true)
 		h.encodeAll(tier)
 		h.readCalls()
 		per := 15 * time.Second
